@@ -62,10 +62,10 @@ class Wires:
         self.q = {'AB': deque(), 'BA': deque()}
         self.log = None           # current step's emission log
 
-    def put(self, direction, cid, payload):
-        self.q[direction].append((cid, payload))
+    def put(self, direction, cid, payload, meta=None):
+        self.q[direction].append((cid, payload, meta))
         if self.log is not None:
-            self.log[direction].append((cid, payload))
+            self.log[direction].append((cid, payload, meta))
 
 
 class HostShim:
@@ -124,7 +124,7 @@ class BumbleSide:
     def deliver(self, cid, payload):
         self.mgr.on_pdu(self.conn, cid, payload)
 
-    def write(self, idx, data):
+    def write(self, idx, data, start=0):
         self.chans[idx].write(data)
 
     def drained(self, idx):
@@ -162,8 +162,8 @@ class ForeignSide:
         self.ident = 0
         self.pending = None
 
-    def _send(self, cid, payload):
-        self.wires.put('AB', cid, bytes(payload))
+    def _send(self, cid, payload, meta=None):
+        self.wires.put('AB', cid, bytes(payload), meta)
 
     def _next_ident(self):
         self.ident = self.ident % 255 + 1
@@ -269,23 +269,27 @@ class ForeignSide:
                 sdu, ch.rx_buf = ch.rx_buf[2:2 + n], ch.rx_buf[2 + n:]
                 self.sunk('A', idx, sdu)
 
-    def write(self, idx, data):
+    def write(self, idx, data, start=0):
         ch = self.chans[idx]
         for off in range(0, len(data), ch.peer_mtu):
             sdu = data[off:off + ch.peer_mtu]
             raw = struct.pack('<H', len(sdu)) + sdu
-            while raw:
+            k = 0
+            while k < len(raw):
                 cap = self.frame_sizes[self.fs_i % len(self.frame_sizes)]
                 self.fs_i += 1
                 n = ch.peer_mps if cap is None else max(1, min(cap, ch.peer_mps))
-                ch.outq.append(raw[:n])
-                raw = raw[n:]
+                n = min(n, len(raw) - k)
+                # (frame, how it derives from the test pattern: SDU start, SDU length, offset, size)
+                ch.outq.append((raw[k:k + n], [start + off, len(sdu), k, n]))
+                k += n
         self._pump(ch)
 
     def _pump(self, ch):
         while ch.tx_credits > 0 and ch.outq:
             ch.tx_credits -= 1
-            self._send(ch.peer_cid, ch.outq.popleft())
+            frame, meta = ch.outq.popleft()
+            self._send(ch.peer_cid, frame, meta)
 
     def drained(self, idx):
         return not self.chans[idx].outq
@@ -311,7 +315,7 @@ async def _setup(sc, wires, A, B):
             moved = False
             for d in order:
                 if wires.q[d]:
-                    cid, payload = wires.q[d].popleft()
+                    cid, payload, _ = wires.q[d].popleft()
                     (B if d == 'AB' else A).deliver(cid, payload)
                     await settle()
                     moved = True
@@ -411,7 +415,7 @@ async def _run_impl(sc):
     n = len(B.chans)
     cids = [(A.cids(i), B.cids(i)) for i in range(n)]
     # which channel a packet on the wire belongs to, by the identifiers negotiated
-    def tag(direction, cid, payload):
+    def tag(direction, cid, payload, meta=None):
         S = A if direction == 'AB' else B
         R = B if direction == 'AB' else A
         if cid == LE_SIG:
@@ -425,8 +429,8 @@ async def _run_impl(sc):
             return [-1, 'S', f.code, 0]
         for i in range(n):
             if R.cids(i)[0] == cid:
-                return [i, 'F', cid, payload]
-        return [-1, 'F', cid, payload]
+                return [i, 'F', cid, payload, meta]
+        return [-1, 'F', cid, payload, meta]
 
     written = {}
     offsets = {}
@@ -444,24 +448,25 @@ async def _run_impl(sc):
             idx %= n
             key = (side, idx)
             off = offsets.get(key, 0)
-            data = pattern(off + (0 if side == 'A' else 97) + 13 * idx, size)
+            start = off + (0 if side == 'A' else 97) + 13 * idx
+            data = pattern(start, size)
             offsets[key] = off + size
             written[key] = written.get(key, b'') + data
-            (A if side == 'A' else B).write(idx, data)
+            (A if side == 'A' else B).write(idx, data, start)
             op = ['W', side, idx, size]
         else:
             d = op[1]
             if wires.q[d]:
-                cid, payload = wires.q[d].popleft()
-                delivered = tag(d, cid, payload)
+                cid, payload, meta = wires.q[d].popleft()
+                delivered = tag(d, cid, payload, meta)
                 (B if d == 'AB' else A).deliver(cid, payload)
         await settle()
         wires.log = None
         steps.append({
             'op': op,
             'delivered': delivered,
-            'AB': [tag('AB', c, p) for c, p in log['AB']],
-            'BA': [tag('BA', c, p) for c, p in log['BA']],
+            'AB': [tag('AB', c, p, m) for c, p, m in log['AB']],
+            'BA': [tag('BA', c, p, m) for c, p, m in log['BA']],
             'sinks': sinks[s0:],
             'drained': [[A.drained(i), B.drained(i)] for i in range(n)],
         })
@@ -575,16 +580,15 @@ def oracle(sc, res):
                     elif len(L['buf']) == 2 + ln:
                         L['sdus'] += L['buf'][2:]
                         L['buf'] = b''
+        # sink bytes are a prefix of the bytes written so far on the other side
         for side, idx, data in st['sinks']:
-            sunk[(side, idx)] = sunk.get((side, idx), b'') + data
-        # sink bytes are a prefix of the bytes written on the other side
-        for (side, idx), got in sunk.items():
+            pos = sunk.get((side, idx), 0)
             src = ('B' if side == 'A' else 'A', idx)
-            w = res['written'].get(src, b'')[:written.get(src, 0)]
-            if got != w[:len(got)]:
-                fail('stream', f'step {k}: channel {idx}: side {side} received bytes that differ from what '
-                               f'{src[0]} wrote (first {len(got)} bytes)')
+            if pos + len(data) > written.get(src, 0) or data != res['written'].get(src, b'')[pos:pos + len(data)]:
+                fail('stream', f'step {k}: channel {idx}: side {side} received {len(data)} bytes at offset {pos} '
+                               f'that are not what {src[0]} wrote there')
                 return bad
+            sunk[(side, idx)] = pos + len(data)
     if res['exhausted']:
         fail('budget', 'step budget exhausted before the wires emptied')
     for i in range(n):
@@ -697,7 +701,8 @@ def foreign_model_exprs(sc, res):
             elif op[1] == 'AB' and st['delivered'] is not None and st['delivered'][0] == i:
                 t = st['delivered']
                 if t[1] == 'F':
-                    evs.append(f'ERecv (PFrame {t[2]} {coq_list(list(t[3]), coq_z)})')
+                    s0, sl, k0, n0 = t[4]
+                    evs.append(f'ERecv (PFrame {t[2]} (ztake {n0} (zdrop {k0} (enc_sdu (mk_data {s0} {sl})))))')
                 else:
                     evs.append(f'ERecv (PCredit {t[2]} {t[3]})')
                 idxs.append(k)
